@@ -95,3 +95,60 @@ func VerifC05_PartitionDeploymentRoundTrip() {
 	verifrt.Assert(c05Get(body, "metadata", "labels", v1alpha1.DeploymentStableRevisionLabel) == "null", "C05.partdeploy.finalize.stableLabelRemoved")
 	verifrt.Cover("C05.partdeploy.done")
 }
+
+// VerifC01_PartitionDeploymentInitializeStartsFromZero: for a partition-style Deployment the partition in the strategy
+// annotation *is* the number of new-revision pods the advanced controller will run.  A release that takes the
+// Deployment over must therefore start it at partition 0 whatever an earlier, withdrawn release left in that
+// annotation (a continuous release keeps the annotation: Finalize with batchPartition set only drops the control
+// marker) — the first batch raises it from there.  The user's rollingUpdate settings travel on, from spec when the
+// Deployment still has them, else from the surviving annotation.
+func VerifC01_PartitionDeploymentInitializeStartsFromZero() {
+	R := int32(verifrt.IntRange("R", 1, 1000))
+	d0 := &apps.Deployment{ObjectMeta: metav1.ObjectMeta{Namespace: "ns", Name: "w", Generation: 3}}
+	d0.Spec.Replicas = &R
+	d0.Spec.Paused = true
+	userSurge := intstr.FromInt(verifrt.IntRange("user.maxSurge", 1, 1000))
+	userUnavailable := intstr.FromInt(verifrt.IntRange("user.maxUnavailable", 0, 1000))
+	leftover := verifrt.Bool("leftover.strategyAnnotation")
+	if leftover {
+		// what a withdrawn release left behind: any partition, paused by the webhook when the next revision arrived
+		old := v1alpha1.DeploymentStrategy{RollingStyle: v1alpha1.PartitionRollingStyle, Paused: verifrt.Bool("leftover.paused"),
+			RollingUpdate: &apps.RollingUpdateDeployment{MaxSurge: &userSurge, MaxUnavailable: &userUnavailable}}
+		if verifrt.Bool("leftover.percent") {
+			old.Partition = intstr.FromString(fmt.Sprintf("%d%%", verifrt.IntRange("leftover.partition.percent", 0, 100)))
+		} else {
+			old.Partition = intstr.FromInt(verifrt.IntRange("leftover.partition", 0, 1000))
+		}
+		d0.Annotations = map[string]string{v1alpha1.DeploymentStrategyAnnotation: util.DumpJSON(&old)}
+		d0.Labels = map[string]string{v1alpha1.AdvancedDeploymentControlLabel: "true"}
+		d0.Spec.Strategy = apps.DeploymentStrategy{Type: apps.RecreateDeploymentStrategyType}
+	} else {
+		d0.Spec.Strategy.Type = apps.RollingUpdateDeploymentStrategyType
+		d0.Spec.Strategy.RollingUpdate = &apps.RollingUpdateDeployment{MaxSurge: &userSurge, MaxUnavailable: &userUnavailable}
+	}
+	cli := &symclient.Client{}
+	rc := &realController{client: cli, key: types.NamespacedName{Namespace: "ns", Name: "w"}, object: d0}
+	rc.WorkloadInfo = util.ParseWorkload(d0)
+	release := &v1beta1.BatchRelease{TypeMeta: metav1.TypeMeta{APIVersion: "rollouts.kruise.io/v1beta1", Kind: "BatchRelease"},
+		ObjectMeta: metav1.ObjectMeta{Namespace: "ns", Name: "br", UID: "uid-1"}}
+	err := rc.Initialize(release)
+	verifrt.Assert(err == nil, "C01.partdeploy.initialize.noError")
+	ws := cli.Writes("patch", "Deployment")
+	verifrt.Assert(len(ws) == 1, "C01.partdeploy.initialize.onePatch")
+	if len(ws) != 1 {
+		return
+	}
+	saved, ok := verifrt.JSONGet(ws[0].Body, "metadata", "annotations", v1alpha1.DeploymentStrategyAnnotation)
+	verifrt.Assert(ok, "C01.partdeploy.initialize.writesStrategy")
+	if !ok {
+		return
+	}
+	verifrt.Assert(c05Get(saved, "partition") == "0", "C01.partdeploy.initialize.startsWithNoNewPods")
+	verifrt.Assert(c05Get(saved, "paused") == "<absent>" || c05Get(saved, "paused") == "false", "C01.partdeploy.initialize.notPaused")
+	verifrt.Assert(c05Get(saved, "rollingStyle") == string(v1alpha1.PartitionRollingStyle), "C01.partdeploy.initialize.partitionStyle")
+	verifrt.Assert(c05Get(saved, "rollingUpdate", "maxSurge") == fmt.Sprintf("%d", userSurge.IntVal) && c05Get(saved, "rollingUpdate", "maxUnavailable") == fmt.Sprintf("%d", userUnavailable.IntVal), "C05.partdeploy.initialize.keepsTheUsersRollingUpdate")
+	verifrt.Assert(c05Get(ws[0].Body, "spec", "paused") == "true" && c05Get(ws[0].Body, "spec", "strategy", "type") == "Recreate", "C01.partdeploy.initialize.nativeControllerDisabled")
+	if leftover {
+		verifrt.Cover("leftover")
+	}
+}
